@@ -63,6 +63,7 @@ PROPS["C11"] = {
     "tests": [
         {"name": "TestProp", "quick": {"shards": 8, "checks": 120}, "thorough": {"shards": 16, "checks": 1500}},
         {"name": "TestHistory", "quick": {"shards": 8, "checks": 2500}, "thorough": {"shards": 16, "checks": 25000}},
+        {"name": "TestStringStore", "quick": {"shards": 2, "checks": 300}, "thorough": {"shards": 4, "checks": 3000}},
     ],
     "rule": "cases: one program per (container, probe), and one per history (TestHistory: strings and arrays in variables that are indexed, "
             "sliced, concatenated from slices, re-assigned, stored into and read again, every variable observed with len and 5 indices after every step; "
